@@ -55,25 +55,38 @@ def generate(tier, seed, ctx):
     ctx["cls"] = {}
     nmax = 512 if thorough else 64
     for n in range(0, nmax + 1):
-        k = 3 if n <= 128 else 1
         ivs = _intervals(rng, 7, thorough)
-        # every order sees the canonical interval; the other classes rotate so that each is met at every parity
-        chosen = [ivs[0]] + [ivs[1 + (n // 2 + j) % 6] for j in range(k - 1)] if k > 1 else [ivs[1 + (n // 2) % 6] if n % 5 else ivs[0]]
+        # every order sees the canonical interval; the other classes rotate so that each is met at every parity.
+        # The model computes the full rule (cost ~ n^2) for n <= 192 and every 8th order beyond, and selected
+        # entries (ends, middle, random) otherwise; the property oracle always sees the implementation's full rule.
+        full = n <= 192 or n % 8 == 0
+        k = 3 if n <= 64 else 1
+        if k > 1:
+            chosen = [ivs[0]] + [ivs[1 + (n // 2 + j) % 6] for j in range(k - 1)]
+        else:
+            chosen = [ivs[1 + (n // 2) % 6] if n % 5 else ivs[0]]
         for cls, a, b in chosen:
-            R.append("c12.rule %d %s %s" % (n, hx(a), hx(b)))
+            if full:
+                R.append("c12.rule %d %s %s" % (n, hx(a), hx(b)))
+            else:
+                idx = sorted(set([0, 1, 2, n // 2 - 1, n // 2, (n - 1) // 2, n - 3, n - 2, n - 1] + [rng.randrange(n) for _ in range(12)]))
+                R.append("c12.sel %d %s %s %s" % (n, hx(a), hx(b), ilst(idx)))
             ctx["cls"][len(R) - 1] = cls
-        if n > 128:   # a second interval on selected indices (cheap for the model)
+        if n > 64:   # a second interval on selected indices (cheap for the model)
             cls, a, b = ivs[1 + (n // 2 + 3) % 6]
             idx = sorted(set([0, 1, n // 2 - 1, n // 2, (n - 1) // 2, n - 2, n - 1] + [rng.randrange(n) for _ in range(6)]))
             R.append("c12.sel %d %s %s %s" % (n, hx(a), hx(b), ilst(idx)))
             ctx["cls"][len(R) - 1] = cls
     # sample of large orders, odd and even
-    big = [4000, 3999] + [rng.randint(513 if thorough else 65, 4000) for _ in range(22 if thorough else 6)]
-    if not thorough:
-        big = [rng.choice([4000, 3999])] + big[2:]
+    if thorough:
+        big = [4000, 3999] + [rng.randint(513, 4000) for _ in range(22)]
+    else:
+        big = [rng.choice([4000, 3999]), rng.randint(65, 512), rng.randint(513, 2000), rng.randint(2001, 4000)]
+        if big[0] % 2 == big[3] % 2:
+            big[3] -= 1
     for n in big:
         cls, a, b = rng.choice(_intervals(rng, 7, thorough))
-        idx = sorted(set([0, 1, 2, n // 2 - 1, n // 2, (n - 1) // 2, n - 3, n - 2, n - 1] + [rng.randrange(n) for _ in range(8)]))
+        idx = sorted(set([0, 1, n // 2, (n - 1) // 2, n - 2, n - 1] + [rng.randrange(n) for _ in range(3 if not thorough else 8)]))
         R.append("c12.sel %d %s %s %s" % (n, hx(a), hx(b), ilst(idx)))
         ctx["cls"][len(R) - 1] = cls
     # overloads on explicit data: equal and mismatched sizes
